@@ -1147,6 +1147,20 @@ func (s *SecureChannel) SendRequestWithTimeout(ctx context.Context, req ua.Reque
 	}
 	verifPoint("send.afterGetActive")
 
+	if h != nil {
+		// The dispatcher stops reading after it has handed over an
+		// OpenSecureChannelResponse until open() has installed the new token and
+		// releases it. This request is not an open: if the peer answers it with
+		// an OpenSecureChannelResponse nobody else would release the dispatcher.
+		handler := h
+		h = func(v ua.Response) error {
+			if _, ok := v.(*ua.OpenSecureChannelResponse); ok {
+				s.rcvLocker.unlock()
+			}
+			return handler(v)
+		}
+	}
+
 	return s.sendRequestWithTimeout(ctx, req, s.nextRequestID(), active, authToken, timeout, h)
 }
 
